@@ -43,6 +43,11 @@ def members(tier, sd, period=None):
         if period:
             m['period'] = period
         out.append(m)
+    # beta^x = 0 identically: with component inputs it is simply not supplied
+    m = dict(family=S.ADMTrig.name, seed=1000 * sd + 80, shift_x0=True)
+    if period:
+        m['period'] = period
+    out.append(m)
     # de Sitter in gauge-transformed flat slicing: a Lambda-vacuum (no matter is
     # supplied at all, vacuum=False, Lambda = 3 H^2)
     m = dict(family=S.PulledBack.name, seed=1000 * sd + 70, base="desitter")
@@ -72,7 +77,7 @@ def cases(tier, sd):
             for vac in ([True, False] if vac_member else [False]):
                 out.append(dict(member=m, order=p, n1=n1, Lambda=lam,
                                 vacuum=vac, box=box, t0=0.3, mode='open',
-                                components=bool((mi + p) % 3 == 0), no_T=ds))
+                                components=bool((mi + p) % 3 == 0 or m.get('shift_x0')), no_T=ds))
     # periodic members: every order, all stencils centred
     per_orders = [(6, 12), (8, 16)] if tier == "quick" else [(2, 16), (4, 12), (6, 12), (8, 16), (6, 16)]
     for mi, m in enumerate(members(tier, sd, period=2.0)):
@@ -85,13 +90,13 @@ def cases(tier, sd):
             vac = vac_member and (mi + p) % 2 == 0
             out.append(dict(member=m, order=p, n1=n1, Lambda=lam,
                             vacuum=vac, box=box, t0=0.3, mode='periodic',
-                            components=bool((mi + p) % 3 == 1), no_T=ds))
+                            components=bool((mi + p) % 3 == 1 or m.get('shift_x0')), no_T=ds))
     return out
 
 
 def mclass(m):
     tags = [m['family'].split('-')[0]]
-    for k in ('shear', 'shift', 'lapse', 'static', 'diagonal', 'base', 'scale'):
+    for k in ('shear', 'shift', 'lapse', 'static', 'diagonal', 'base', 'scale', 'shift_x0'):
         if k in m:
             tags.append(f"{k}={m[k]}")
     return ",".join(tags)
@@ -113,6 +118,8 @@ def evaluate(spec, g, keys, extra_inputs=(), rel_kw=None):
         for nm, (i, j) in zip(['kxx', 'kxy', 'kxz', 'kyy', 'kyz', 'kzz'], ij):
             inp[nm] = ex['Kdown3'][i, j]
         for i, c in enumerate('xyz'):
+            if c == 'x' and spec['member'].get('shift_x0'):
+                continue
             inp['beta' + c] = ex['betaup3'][i]
             inp['dtbeta' + c] = ex['dtbetaup3'][i]
     if not spec['vacuum'] and not spec.get('no_T'):
